@@ -7,3 +7,7 @@ import MdVerif.Props.C01b
 #print axioms MdVerif.DocParse2.C01b_code_piece
 #print axioms MdVerif.DocParse2.C01_code_block
 #print axioms MdVerif.DocParse2.C01_flat_code
+#print axioms MdVerif.DocParse2.C01b_backtick_pass
+#print axioms MdVerif.DocParse2.C01b_span_elem
+#print axioms MdVerif.DocParse2.C01b_span_line
+#print axioms MdVerif.DocParse2.C01_code_span
